@@ -77,14 +77,15 @@ def run(chk: core.Check):
             unattributed += 1        # parsing does not conform: subject of C02/C11
             continue
         fmts = FORMATS if di % 40 == 0 else rnd.sample(FORMATS, nfmt)
-        for f in fmts:
+        p1 = c06.project(lib1, M)        # the content of the first parse, taken BEFORE anything is written: the same parsed
+        for f in fmts:                   # library is then written under several formats
             cid = len(cases)
             try:
                 fmt = c06.build_fmt(bib, f)
                 s1 = bib.write_string(lib1, bibtex_format=fmt)
                 lib2 = bib.parse_string(s1)
                 s2 = bib.write_string(lib2, bibtex_format=fmt)
-                p1, p2 = c06.project(lib1, M), c06.project(lib2, M)
+                p2 = c06.project(lib2, M)
             except Exception as ex:  # noqa
                 chk.mismatch("raised", {"kind": "docfmt", "text": text, "fmt": f}, f"{type(ex).__name__}: {ex}", "round trip returns",
                              kind="docfmt")
